@@ -207,13 +207,25 @@ func createCompiledRouteHandler(route *ast.Route, bytecode []byte, wsHub *websoc
 					}
 					vmInstance.SetLocal("input", interfaceToValue(bodyMap))
 				} else {
+					// Not a JSON object (empty, malformed, an array, ...): that
+					// cannot satisfy a declared input type with required fields.
+					if err := validateCompiledInput(route, nil); err != nil {
+						ctx.Request.Body.Close()
+						return sendClientError(ctx, err.Error())
+					}
 					vmInstance.SetLocal("input", vm.NullValue{})
 				}
 				ctx.Request.Body.Close()
 			} else {
+				if err := validateCompiledInput(route, nil); err != nil {
+					return sendClientError(ctx, err.Error())
+				}
 				vmInstance.SetLocal("input", vm.NullValue{})
 			}
 		} else {
+			if err := validateCompiledInput(route, nil); err != nil {
+				return sendClientError(ctx, err.Error())
+			}
 			vmInstance.SetLocal("input", vm.NullValue{})
 		}
 
